@@ -383,15 +383,226 @@ def iter_next(e, args, fr, m):
     return some(x)
 
 
+# ---------------------------------------------------------------------------------------------- lazy iterator pipelines
+# IterV(kind='lazy', items=source elements, pos, extra=tuple of stages). A stage is (name, closure-or-None, state).
+# Elements are pulled one at a time through the stages, exactly as the adaptors of std do: a closure is only called for
+# the elements a consumer actually asks for (so a panic / a decision behind an early exit is never executed).
+_BYREF = {'filter', 'take_while', 'skip_while', 'inspect'}
+
+
+def _as_lazy(e, it):
+    if not isinstance(it, IterV):
+        raise Unsupported('iterator adaptor on %r' % (it,))
+    if it.kind == 'lazy':
+        return it
+    if it.kind == 'val':
+        return IterV(it.items[it.pos:], 0, 'lazy', ())
+    if it.kind == 'map':
+        return IterV(it.items[it.pos:], 0, 'lazy', (('map', it.extra, None),))
+    if it.kind == 'filter':
+        return IterV(it.items[it.pos:], 0, 'lazy', (('filter', it.extra, None),))
+    if it.kind == 'enum':
+        return IterV(it.items[it.pos:], 0, 'lazy', (('enumerate', None, it.pos),))
+    raise Unsupported('iterator adaptor on a %s iterator' % it.kind)
+
+
+def lazy_pull(e, fr, it):
+    """-> (element or None, iterator after the pull)"""
+    items, pos, stages = it.items, it.pos, list(it.extra)
+    done = lambda: (None, IterV(items, len(items), 'lazy', tuple(stages)))
+    while True:
+        if any(st[0] == 'take' and st[2] == 0 for st in stages):
+            return done()
+        if pos >= len(items):
+            return done()
+        x = items[pos]
+        pos += 1
+        dropped = False
+        for i, (name, clo, state) in enumerate(stages):
+            if name == 'map':
+                x = call_closure(e, fr, clo, [x])
+            elif name == 'inspect':
+                call_closure(e, fr, clo, [ValRef(x)])
+            elif name == 'filter':
+                if not e.branch(call_closure(e, fr, clo, [ValRef(x)])):
+                    dropped = True
+            elif name == 'filter_map':
+                r = e.force(call_closure(e, fr, clo, [x]))
+                if r.variant != 'Some':
+                    dropped = True
+                else:
+                    x = r.fields[0]
+            elif name == 'map_while':
+                r = e.force(call_closure(e, fr, clo, [x]))
+                if r.variant != 'Some':
+                    return done()
+                x = r.fields[0]
+            elif name == 'take_while':
+                if not e.branch(call_closure(e, fr, clo, [ValRef(x)])):
+                    return done()
+            elif name == 'skip_while':
+                if not state:
+                    if e.branch(call_closure(e, fr, clo, [ValRef(x)])):
+                        dropped = True
+                    else:
+                        stages[i] = (name, clo, True)
+            elif name == 'skip':
+                if state > 0:
+                    stages[i] = (name, clo, state - 1)
+                    dropped = True
+            elif name == 'take':
+                stages[i] = (name, clo, state - 1)
+            elif name == 'enumerate':
+                x = Tuple((Int(state, 'usize'), x))
+                stages[i] = (name, clo, state + 1)
+            else:
+                raise Unsupported('iterator stage ' + name)
+            if dropped:
+                break
+        if not dropped:
+            return x, IterV(items, pos, 'lazy', tuple(stages))
+
+
+def lazy_drain(e, fr, it):
+    out = []
+    while True:
+        x, it = lazy_pull(e, fr, it)
+        if x is None:
+            return out, it
+        out.append(x)
+
+
+@contract(r'^<.* as Iterator>::(map_while|take_while|skip_while|filter_map|inspect)::<.*>$')
+def iter_lazy_adaptor(e, args, fr, m):
+    it = _as_lazy(e, e.force(args[0]))
+    name = m.group(1)
+    return IterV(it.items, it.pos, 'lazy', it.extra + ((name, args[1], False if name == 'skip_while' else None),))
+
+
+@contract(r'^<(?!ReadDir).* as Iterator>::(take|skip|step_by)$')
+def iter_take_skip(e, args, fr, m):
+    it = _as_lazy(e, e.force(args[0]))
+    n = e.force(args[1])
+    if not n.concrete or m.group(1) == 'step_by':
+        raise Unsupported('%s with a symbolic count' % m.group(1))
+    return IterV(it.items, it.pos, 'lazy', it.extra + ((m.group(1), None, n.v),))
+
+
+@contract(r'^<.* as Iterator>::(cloned|copied)::<.*>$|^<.* as Iterator>::(cloned|copied|peekable|fuse|by_ref)$')
+def iter_identity_adaptor(e, args, fr, m):
+    return e.force(args[0])
+
+
+@contract(r'^<.* as Iterator>::rev$')
+def iter_rev(e, args, fr, m):
+    it = e.force(args[0])
+    if isinstance(it, IterV) and it.kind == 'val':
+        return IterV(list(reversed(it.items[it.pos:])), 0, 'val')
+    if isinstance(it, IterV) and it.kind == 'lazy' and all(st[0] in ('map', 'filter', 'filter_map', 'inspect') for st in it.extra):
+        return IterV(list(reversed(it.items[it.pos:])), 0, 'lazy', it.extra)     # element-wise stages commute with reversal
+    raise Unsupported('rev of a %s iterator' % getattr(it, 'kind', it))
+
+
+@contract(r'^<.* as Iterator>::chain::<.*>$')
+def iter_chain(e, args, fr, m):
+    a, b = e.force(args[0]), e.force(args[1])
+    if isinstance(b, VecV):
+        b = IterV(list(b.items), 0, 'val')
+    if isinstance(a, IterV) and isinstance(b, IterV) and a.kind == b.kind == 'val':
+        return IterV(a.items[a.pos:] + b.items[b.pos:], 0, 'val')
+    raise Unsupported('chain of %s and %s iterators' % (getattr(a, 'kind', a), getattr(b, 'kind', b)))
+
+
+@contract(r'^<.* as Iterator>::zip::<.*>$')
+def iter_zip(e, args, fr, m):
+    a, b = e.force(args[0]), e.force(args[1])
+    if isinstance(b, VecV):
+        b = IterV(list(b.items), 0, 'val')
+    if isinstance(a, IterV) and isinstance(b, IterV) and a.kind == b.kind == 'val':
+        return IterV([Tuple((x, y)) for x, y in zip(a.items[a.pos:], b.items[b.pos:])], 0, 'val')
+    raise Unsupported('zip of %s and %s iterators' % (getattr(a, 'kind', a), getattr(b, 'kind', b)))
+
+
+@contract(r'^<(?:Map|Filter|FilterMap|MapWhile|TakeWhile|SkipWhile|Take|Skip|Rev|Cloned|Copied|Chain|Zip|Inspect|Peekable|Fuse)<.*> as Iterator>::next$')
+def iter_lazy_next(e, args, fr, m):
+    it = e.load(args[0])
+    if isinstance(it, IterV) and it.kind == 'val':
+        if it.pos >= len(it.items):
+            return NONE
+        e.store(args[0], IterV(it.items, it.pos + 1, 'val', it.extra))
+        return some(it.items[it.pos])
+    x, it2 = lazy_pull(e, fr, _as_lazy(e, it))
+    e.store(args[0], it2)
+    return NONE if x is None else some(x)
+
+
+@contract(r'^<(?:Map|Filter|FilterMap|MapWhile|TakeWhile|SkipWhile|Take|Skip|Rev|Cloned|Copied|Chain|Zip|Inspect|Peekable|Fuse)<.*> as IntoIterator>::into_iter$')
+def iter_lazy_into_iter(e, args, fr, m):
+    return args[0]
+
+
+@contract(r'^<.* as Iterator>::(last|for_each::<.*>|nth|find_map::<.*>|max|min)$')
+def iter_lazy_consumer(e, args, fr, m):
+    which = m.group(1).split(':')[0]
+    it = _as_lazy(e, e.force(args[0]))
+    if which == 'last':
+        xs, _ = lazy_drain(e, fr, it)
+        return some(xs[-1]) if xs else NONE
+    if which == 'for_each':
+        while True:
+            x, it = lazy_pull(e, fr, it)
+            if x is None:
+                return UNIT
+            call_closure(e, fr, args[1], [x])
+    if which == 'nth':
+        n = e.force(args[1])
+        if not n.concrete:
+            raise Unsupported('nth with a symbolic index')
+        x = None
+        for _ in range(n.v + 1):
+            x, it = lazy_pull(e, fr, it)
+            if x is None:
+                break
+        e.store(args[0], it) if isinstance(args[0], (Ref, Ptr)) else None
+        return NONE if x is None else some(x)
+    if which == 'find_map':
+        while True:
+            x, it = lazy_pull(e, fr, it)
+            if x is None:
+                return NONE
+            r = e.force(call_closure(e, fr, args[1], [x]))
+            if r.variant == 'Some':
+                return r
+    xs, _ = lazy_drain(e, fr, it)
+    if not xs:
+        return NONE
+    best = e.force(xs[0])
+    for y in xs[1:]:
+        y = e.force(y)
+        c = e.binop('Gt' if which == 'max' else 'Lt', y, best)
+        # max returns the LAST maximal element, min the first minimal one
+        if which == 'max':
+            c = e.binop('Ge', y, best)
+        if e.branch(c):
+            best = y
+    return some(best)
+
+
 @contract(r'^<(?!ReadDir).* as Iterator>::enumerate$')
 def iter_enumerate(e, args, fr, m):
     it = e.force(args[0])
+    if isinstance(it, IterV) and it.kind not in ('val',):
+        it = _as_lazy(e, it)
+        return IterV(it.items, it.pos, 'lazy', it.extra + (('enumerate', None, 0),))
     return IterV(it.items[it.pos:], 0, 'enum')
 
 
 @contract(r'^<.* as Iterator>::map::<.*>$')
 def iter_map(e, args, fr, m):
     it = e.force(args[0])
+    if isinstance(it, IterV) and it.kind not in ('val',):
+        it = _as_lazy(e, it)
+        return IterV(it.items, it.pos, 'lazy', it.extra + (('map', args[1], None),))
     return IterV(it.items[it.pos:], 0, 'map', args[1])
 
 
@@ -420,8 +631,21 @@ def _iter_items(e, it):
 def iter_any_all_find(e, args, fr, m):
     """short-circuiting adaptors: consume the iterator up to and including the deciding element"""
     it = e.load(args[0])
-    items = _iter_items(e, it)
     which = m.group(1)
+    if isinstance(it, IterV) and it.kind in ('lazy', 'map', 'filter', 'enum'):
+        it = _as_lazy(e, it)
+        k = 0
+        while True:
+            x, it = lazy_pull(e, fr, it)
+            if x is None:
+                e.store(args[0], it)
+                return {'any': False, 'all': True, 'find': NONE, 'position': NONE}[which]
+            hit = e.branch(call_closure(e, fr, args[1], [ValRef(x)] if which == 'find' else [x]))
+            if (which in ('any', 'find', 'position') and hit) or (which == 'all' and not hit):
+                e.store(args[0], it)
+                return {'any': True, 'all': False, 'find': some(x), 'position': some(Int(k, 'usize'))}[which]
+            k += 1
+    items = _iter_items(e, it)
     for k, x in enumerate(items):
         r = call_closure(e, fr, args[1], [ValRef(x)] if which == 'find' else [x])
         hit = e.branch(r)
@@ -435,6 +659,8 @@ def iter_any_all_find(e, args, fr, m):
 @contract(r'^<.* as Iterator>::count$')
 def iter_count(e, args, fr, m):
     it = e.force(args[0])
+    if isinstance(it, IterV) and it.kind in ('lazy', 'map', 'enum'):
+        return Int(len(lazy_drain(e, fr, _as_lazy(e, it))[0]), 'usize')
     if isinstance(it, IterV) and it.kind == 'filter':
         n = 0
         for x in it.items[it.pos:]:
@@ -447,6 +673,9 @@ def iter_count(e, args, fr, m):
 @contract(r'^<.* as Iterator>::filter::<.*>$')
 def iter_filter(e, args, fr, m):
     it = e.force(args[0])
+    if isinstance(it, IterV) and it.kind not in ('val',):
+        it = _as_lazy(e, it)
+        return IterV(it.items, it.pos, 'lazy', it.extra + (('filter', args[1], None),))
     return IterV(_iter_items(e, it), 0, 'filter', args[1])
 
 
@@ -456,6 +685,8 @@ def iter_collect_vec(e, args, fr, m):
     if not isinstance(it, IterV):
         raise Unsupported('collect on %r' % (it,))
     items = it.items[it.pos:]
+    if it.kind in ('lazy', 'enum'):
+        return VecV(lazy_drain(e, fr, _as_lazy(e, it))[0])
     if it.kind == 'map':
         return VecV([call_closure(e, fr, it.extra, [x]) for x in items])
     if it.kind == 'val':
@@ -1484,6 +1715,20 @@ def sort_findings(e, args, fr, m):
 
 
 # ------------------------------------------------------------------------------------------------ more Vec / iterator adaptors
+@contract(r'^Vec::<.*>::(retain|retain_mut)::<.*>$')
+def vec_retain(e, args, fr, m):
+    """keeps the elements for which the closure answers true, in order"""
+    v = e.load(args[0])
+    out = [x for x in v.items if e.branch(call_closure(e, fr, args[1], [ValRef(x)]))]
+    e.store(args[0], VecV(out))
+    return UNIT
+
+
+@contract(r'^(?:BTreeSet|HashSet)::<.*>::is_empty$')
+def set_is_empty(e, args, fr, m):
+    return len(e.load(args[0]).items) == 0
+
+
 @contract(r'^Vec::<.*>::dedup$')
 def vec_dedup(e, args, fr, m):
     """removes consecutive repeated elements (PartialEq); equality of symbolic elements is decided by the solver"""
@@ -1524,6 +1769,8 @@ def iter_sum(e, args, fr, m):
     ty = m.group(1)
     if not isinstance(it, IterV):
         raise Unsupported('sum on %r' % (it,))
+    if it.kind == 'lazy':
+        it = IterV(lazy_drain(e, fr, it)[0], 0, 'val')
     items = it.items[it.pos:]
     total = Int(0, ty)
     for x in items:
